@@ -243,7 +243,9 @@ def iterate_ds(ds, r):
             if o.get("shards") is not None:
                 kw3["shards"] = o["shards"]
             try:
-                if r.get("via") == "concurrent":
+                if r.get("via") == "tf":
+                    outs.append([val(e) for e in ds.as_tfdataset(batch_size=0, file_parallelism=2, parallelism=1, prefetch=1, **kw3)])
+                elif r.get("via") == "concurrent":
                     outs.append([val(e) for e in ds.as_numpy_iterator_concurrent(file_parallelism=2, **kw3)])
                 else:
                     outs.append([val(e) for e in ds.as_numpy_iterator(**kw3)])
